@@ -194,6 +194,15 @@ func runStateLayer(r *ev.Run, thorough bool) hResult {
 		}
 		res.graphs = append(res.graphs, gs.name)
 	}
+	// the 5-task re-shuffle graph (phase members with different dependencies): every
+	// assignment of initial states too
+	{
+		gs := specByName("reshuffle")
+		for _, init := range allInits(gs.ntasks, "IOLE") {
+			jobs = append(jobs, job{gs, init})
+		}
+		res.graphs = append(res.graphs, gs.name)
+	}
 	type out struct{ transitions, traces int }
 	outs := make([]out, len(jobs))
 	ev.Parallel(len(jobs), 16, func(ji int) {
